@@ -989,6 +989,21 @@ class GroupBy:
 
         if transform:
             self._unify_group_key_chunks()
+            if func_is_mean:
+                # mean = sum / count per group (the trailing slot, for null keys
+                # and unobserved groups, is null)
+                means = []
+                for result, count in zip(result_columns, counts):
+                    result, count = result[:result_len], count[:result_len]
+                    has_values = count > 0
+                    mean = mean_from_sum_count(
+                        pd.Series(result[has_values]), pd.Series(count[has_values])
+                    ).to_numpy()
+                    null = np.array([np.nan]).astype(mean.dtype)
+                    full = np.full(result_len + 1, null[0], dtype=mean.dtype)
+                    full[:result_len][has_values] = mean
+                    means.append(full)
+                result_columns = means
             result_columns = [result[self.group_ikey] for result in result_columns]
             if common_index is not None:
                 result_index = common_index
